@@ -201,7 +201,17 @@ class _NativeObj:
         self._metadata = type('MD', (), {})()
 
     def __repr__(self):
-        return f'{self.cls}({", ".join(map(repr, self.args))})'
+        return f'{self.cls}({", ".join(map(repr, self.args))})@{getattr(self._metadata, "position_info", None)}'
+
+    def __eq__(self, other):
+        if isinstance(other, tuple) and len(other) == 3:
+            return (self.cls, self.args, getattr(self._metadata, 'position_info', None)) == (other[0], list(other[1]), tuple(other[2]))
+        return self is other
+
+    def __ne__(self, other):
+        return not self.__eq__(other)
+
+    __hash__ = object.__hash__
 
 
 def run_native(cx, ex, W):
